@@ -38,3 +38,12 @@ def header_items():
         {"file": F_REC, "kind": "fn", "name": "parse_tls_record_header", "contract": "    ensures header_post(i@, r),",
          "subst": [(r"TlsRecordHeader::parse\(i\)", "parse_be_TlsRecordHeader(i)")]},   # the generated delegation (checked by the extractor)
     ]
+
+
+def newtype_items(T, width):
+    """a derive(Nom*) newtype over u8/u16: generated parse_be proved to be nom's big-endian reader followed by the
+    constructor, and the generated `T::parse` delegation kept as a method (replaces a former external_body assumption)"""
+    return [
+        {"file": EXP, "kind": "derived", "name": T, "with_parse": True,
+         "contract": "ensures be_post(%d, orig_i@, r, |v: %s| v.0 as int)," % (width, T)},
+    ]
